@@ -22,11 +22,13 @@ CLAIMS = {
 GOALS = {'quick': ['falsy value possible', 'partial query',
                    'history inserted out of time order',
                    'queried variable missing at one time',
-                   'two rows emitted for one time'],
+                   'two rows emitted for one time',
+                   'variable appearing under a store that was empty at first'],
          'thorough': ['falsy value possible', 'partial query',
                       'history inserted out of time order',
                       'queried variable missing at one time',
-                      'two rows emitted for one time']}
+                      'two rows emitted for one time',
+                      'variable appearing under a store that was empty at first']}
 STUBS = ['RAMEmitter.saved_data filled directly with raw data (the accessors '
          'under test read it; no orjson boundary crossed); the emit-same-time '
          'job goes through the real RAMEmitter.emit (values concretised by '
@@ -61,6 +63,7 @@ def jobs(tier):
                         nt=3 if tier == 'quick' else 4, part='missing',
                         budget_s=100 if tier == 'quick' else 600))
     out.append(dict(name='emit-same-time', part='emit', budget_s=100))
+    out.append(dict(name='late-variable', part='late', budget_s=60))
     return out
 
 
@@ -73,6 +76,8 @@ def assoc(d, path, v):
 def body(ctx, cfg):
     if cfg.get('part') == 'emit':
         return emit_merge(ctx, cfg)
+    if cfg.get('part') == 'late':
+        return late_variable(ctx, cfg)
     paths = SHAPES[cfg['shape']]
     # insertion order of the raw data: ascending (what the engine produces),
     # descending or rotated (merged / late data); alignment is claimed by
@@ -236,6 +241,43 @@ def emit_merge(ctx, cfg):
             get_in(ts, ('a', 'x'), []), ts.get('time', []))]),
         sig='aligned-after-same-time-rows',
         info=lambda: dict(rows=rows, timeseries=ts))
+
+
+def late_variable(ctx, cfg):
+    """Beyond the premise of the first sentence of C18 (variables that exist
+    at every time), but within "lose nothing": a store that is empty when it
+    is first seen and gains a variable later.  The emitted values of that
+    variable are all there, in time order (whatever a view puts for the times
+    at which the variable did not exist)."""
+    x = [ctx.int('x', -2, 2) for _ in range(3)]
+    m = [ctx.int('m', -2, 2) for _ in range(2)]
+    deep = ctx.flag('one_level_down')
+    def wrap(d):
+        return {'cell': d} if deep else d
+    data = {0: wrap({'agents': {}, 'n': x[0]}),
+            1: wrap({'agents': {'a1': {'mass': m[0]}}, 'n': x[1]}),
+            2: wrap({'agents': {'a1': {'mass': m[1]}}, 'n': x[2]})}
+    pre = ('cell',) if deep else ()
+    em = RAMEmitter({})
+    em.saved_data = copy.deepcopy(data)
+    views = {'embedded-function': timeseries_from_data(copy.deepcopy(data)),
+             'embedded-accessor': em.get_timeseries()}
+    cl = []
+    for name, ts in views.items():
+        series = get_in(ts, pre + ('agents', 'a1', 'mass'), None)
+        vals = [v for v in (series or []) if v is not None]
+        cl.append(len(vals) == 2 and AND(EQ(vals[0], m[0]), EQ(vals[1], m[1])))
+        ns = get_in(ts, pre + ('n',), [])
+        cl.append(len(ns) == 3 and AND([EQ(a, b) for a, b in zip(ns, x)]))
+    for name, pts in (('path-function', path_timeseries_from_data(
+            copy.deepcopy(data))), ('path-accessor', em.get_path_timeseries())):
+        series = pts.get(pre + ('agents', 'a1', 'mass'))
+        vals = [v for v in (series or []) if v is not None]
+        cl.append(len(vals) == 2 and AND(EQ(vals[0], m[0]), EQ(vals[1], m[1])))
+    ctx.goal('variable appearing under a store that was empty at first')
+    ctx.claim('C18.roundtrip', AND(cl), sig='late-variable-under-empty-store',
+              info=lambda: dict(data=data, views={k: repr(v) for k, v in
+                                                  views.items()}))
 
 
 def query_missing(ctx, times, paths, data, raw, same):
